@@ -83,6 +83,11 @@ Reply(c, kind, s, sm, params) ==            \* params: the exported parameters i
       ELSE /\ act' = [act EXCEPT ![c] = {}] /\ ing' = [ing EXCEPT ![c] = {}] /\ maybe' = [maybe EXCEPT ![c] = {}]
    /\ UNCHANGED <<idx, cur, held, owed, got, devs>>
 
+(* an activate naming something that is not an exported module / parameter is refused and activates nothing *)
+Refused(c, s) ==
+   /\ ing' = [ing EXCEPT ![c] = @ \ {s}]
+   /\ UNCHANGED <<idx, cur, act, maybe, held, owed, got, devs>>
+
 (* quiescence: every active connection holds the current state and nothing is owed *)
 Quiet(params) ==      \* params: set of [p, pm]
    /\ \A c \in Conns : \A x \in params : Active(c, x.p, x.pm) =>
